@@ -132,3 +132,31 @@ package epd
 //@   nopanic
 //@   loop 1: invariant start <= ix && ix <= end && 0 <= start && end <= len(c.lineManifest) && len(chunkLines) == ix - start && implies(0 <= gi && gi < ix - start, chunkLines[gi] == c.lineManifest[si(uint64(start + gi), uint64(len(c.lineManifest)), uint64(epoch))])
 //@   loop 1: modifies chunkLines.*
+//@
+//@ # ---- cycle walking: shuffleIndex returns the FIRST iterate of the Feistel map (starting from x) that
+//@ # ---- falls below n.  Together with injectivity of the Feistel map on [0, 2^bits) (lemma
+//@ # ---- feistelInjective) this is the hypothesis of the Lean theorem firstReturn_inj
+//@ # ---- (/verif/spec/lean/Walk.lean): the first-return map of an injective map to a set is injective
+//@ # ---- on that set, i.e. shuffleIndex(., n, seed) is a permutation of [0, n).
+//@ axiom fiterZero(x uint64, seed uint64, bits int)
+//@   concl fiter(0, x, seed, uint64(bits)) == x
+//@ axiom fiterSucc(j int, x uint64, seed uint64, bits int)
+//@   hyp j >= 0
+//@   concl fiter(uint64(j + 1), x, seed, uint64(bits)) == fst(fiter(uint64(j), x, seed, uint64(bits)), seed, uint64(bits))
+//@
+//@ func feistel view walk
+//@   trusted definition: fst names the value computed by feistel, a pure function of its arguments (frame and range proved in the main contract)
+//@   requires 1 <= bits && bits <= 64
+//@   ensures result == fst(x, seed, uint64(bits)) && result & ^lowMask(bits) == 0
+//@   modifies nothing
+//@
+//@ func shuffleIndex view walk
+//@   props C20
+//@   views walk
+//@   requires x < n
+//@   ensures [firstReturn] implies(n > 1, result == fiter(uint64(count(1) + 1), old(x), seed, uint64(len64(n-1))) && result < n && forall(j, 1, count(1) + 1, fiter(uint64(j), old(x), seed, uint64(len64(n-1))) >= n))
+//@   modifies nothing
+//@   use fiterZero(x, seed, bitsNeeded) at loop1
+//@   use fiterSucc(count(1), old(x), seed, bitsNeeded) at loop1
+//@   loop 1: invariant n > 1 && bitsNeeded == len64(n-1) && 1 <= bitsNeeded && bitsNeeded <= 64 && mask == lowMask(bitsNeeded)
+//@   loop 1: invariant x & ^mask == 0 && x == fiter(uint64(count(1)), old(x), seed, uint64(bitsNeeded)) && forall(j, 1, count(1) + 1, fiter(uint64(j), old(x), seed, uint64(bitsNeeded)) >= n)
